@@ -40,6 +40,28 @@ func (c15) NumCases(tier string, seed int64) int {
 var jsonHostile = []string{"", " ", "\"", "\\", "/", "<", ">", "&", " ", " ", "a b", "\x01", "\x1f", "\x7f", "\b\f\n\r\t", "\x00", "é", "世界", "\U0001F600", "\U0010FFFF", "�",
 	"</script>", "a\"b\\c", "\\u0041", "\\n", "{\"a\":1}", "[1,2]", "null", "true", "1e5", "'", "`", " ", "​", "tab\there", "line\nbreak", strings.Repeat("x", 300), strings.Repeat("\"", 40)}
 
+// boundaryStrings: a multi-byte character straddling every byte offset around the buffer sizes writers like to use
+func boundaryStrings() []string {
+	var out []string
+	for _, b := range []int{256, 512, 1024, 2048, 4096, 8192, 32768, 65536} {
+		for _, ch := range []string{"é", "€", "\U0001F600"} {
+			for back := 1; back < len(ch)+1; back++ {
+				if b > 8192 && back > 1 {
+					continue
+				}
+				out = append(out, strings.Repeat("a", b-back)+ch+"z")
+			}
+		}
+	}
+	out = append(out, strings.Repeat("€", 1000), strings.Repeat("\"", 1030), strings.Repeat("\\", 700)+"é")
+	return out
+}
+
+func init() {
+	jsonHostile = append(jsonHostile, boundaryStrings()...)
+	xmlHostile = append(xmlHostile, boundaryStrings()...)
+}
+
 type failWriter struct {
 	n      int // bytes accepted before failing
 	wrote  int
